@@ -19,18 +19,21 @@ Next ==
      ELSE IF e.skipped THEN UNCHANGED <<paired, who, want, val, done>>
      ELSE
        LET ok == e.res = "ok"
-           paired2 == IF e.a \in {"Pair", "Add"} /\ ok THEN paired \cup {e.x} ELSE IF e.a = "Remove" /\ ok THEN paired \ {e.x} ELSE paired
+           paired2 == IF e.a \in {"Pair", "Add"} /\ ok THEN paired \cup {e.x} ELSE IF e.a \in {"Remove", "RemoveDuring"} /\ ok THEN paired \ {e.x} ELSE paired
            changed == e.a \in {"Write", "Local"} /\ e.running /\ e.val # val /\ (e.a = "Local" \/ ok)
            expected == IF changed THEN {k \in want : k # e.k /\ Ver(k)} ELSE {}
        IN
        \* C03: verification succeeds exactly for a stored controller
        /\ Report("E2E-Verify", e.a = "Verify" => (ok <=> e.x \in paired))
+       \* ... a verification that overlaps the removal of its pairing (e.vres) may go either way, one for a controller that
+       \* was not stored before either may not succeed
+       /\ Report("E2E-Verify", (e.a = "RemoveDuring" /\ e.vres = "ok") => e.x \in paired)
        \* C04: the honest controller that knows the code pairs on a connection whose pair-setup machine is at its start
        \* (that a finished machine refuses a second exchange and is reset by the refusal is the code's behaviour, modelled in
        \* Accessory.tla and followed here through done, but no listed property demands it)
        /\ Report("E2E-Pair", (e.a = "Pair" /\ e.k \notin done) => ok)
        \* C01: gated operations are served exactly on verified connections
-       /\ Report("E2E-Gate", e.a \in {"Read", "Sub", "Unsub", "Write", "Remove", "Add"} => (ok <=> Ver(e.k)))
+       /\ Report("E2E-Gate", e.a \in {"Read", "Sub", "Unsub", "Write", "Remove", "Add", "RemoveDuring"} => (ok <=> Ver(e.k)))
        \* C01: nothing is disclosed to a connection that is not verified
        /\ Report("E2E-Leak", e.running => \A k \in SetOf(e.got) : (Ver(k) \/ (e.a = "Verify" /\ ok /\ k = e.k)))
        \* C10: events go to exactly the verified, subscribed others
@@ -40,6 +43,8 @@ Next ==
        /\ Report("E2E-Pairings", e.running => SetOf(e.paired) = {"e2e-" \o c : c \in paired2})
        /\ paired' = paired2
        /\ who' = IF e.a = "Verify" /\ ok THEN Put(e.k, e.x)
+                 ELSE IF e.a = "RemoveDuring" /\ e.res = "dropped" THEN Del(e.k)
+                 ELSE IF e.a = "RemoveDuring" /\ e.vres = "ok" THEN Put(e.k2, e.x)
                  ELSE IF e.a = "Close" \/ e.res = "dropped" THEN Del(e.k)
                  ELSE IF e.a \in {"Stop", "Start"} THEN << >> ELSE who
        /\ want' = IF e.a = "Sub" /\ ok THEN want \cup {e.k}
